@@ -1019,6 +1019,8 @@ func ghostZero(res string) string {
 		return "((as const (Array Int Int)) 0)"
 	case "reals":
 		return "((as const (Array Int Real)) 0.0)"
+	case "strs":
+		return "((as const (Array Int Str)) str_empty)"
 	}
 	return "0"
 }
